@@ -46,6 +46,8 @@ def run(repo, res):
     # what an import line proposes comes from Project.list_packages: interpreted on a modelled directory with the suffixes importlib
     # uses (ABI-tagged extension modules included), every proposed name must be an identifier
     api_model.apply(res, api_model.list_packages_model(repo), {'lp-ident': 'C12-R2'}, 'supp/project.py', 0)
+    # the analysis assist asks is that of the *marked* text: what it computes from recorded assignments must not depend on where the mark is
+    api_model.apply(res, api_model.assigns_model(repo), {'assigns-mark': 'C12-R3'}, 'supp/scope.py', 0)
     # a sink that removes duplicates makes the proposals duplicate-free whatever attr_list returns; otherwise every
     # attr_list implementation must return unique keys
     sink = [r for r in recs if r[0] == 'unique-sink']
